@@ -1260,7 +1260,7 @@ impl<'a> Exchange<'a> {
         fab_idx: NonZeroU8,
         group_id: u16,
     ) -> Result<Self, Error> {
-        let (session_id, group_data_ctr, boundary) = matter.with_state(|state| {
+        let (session_id, group_data_ctr) = matter.with_state(|state| {
             let session = state.sessions.get_or_create_for_group_tx(
                 &crypto,
                 &state.fabrics,
@@ -1274,27 +1274,41 @@ impl<'a> Exchange<'a> {
             // value is reserved here.
             let (ctr, boundary) = state.sessions.reserve_global_group_data_ctr(&crypto)?;
 
-            Ok::<_, Error>((session_id, ctr, boundary))
+            // Store the moved boundary BEFORE the reserved value can reach the
+            // wire: a restart then resumes past it, so receivers never see a
+            // counter value replayed. Writes happen once per
+            // `GROUP_DATA_CTR_EPOCH` messages, not per message.
+            //
+            // The write happens while the state is still locked, so that no
+            // other reservation can see the moved boundary before it is in
+            // storage (it would get a value and no demand to store anything).
+            // If the write fails the reservation is undone: the in-memory
+            // boundary must not claim a coverage the storage does not have,
+            // or every later value of this epoch would go out uncovered and
+            // be handed out again after a power loss.
+            if let Some(boundary) = boundary {
+                let stored = kv.access(|store, buf| {
+                    store.store(
+                        crate::persist::GROUP_DATA_COUNTER_KEY,
+                        &boundary.to_le_bytes(),
+                        buf,
+                    )
+                });
+
+                if let Err(e) = stored {
+                    state.sessions.unreserve_global_group_data_ctr(ctr);
+
+                    return Err(e);
+                }
+
+                debug!(
+                    "Group data message counter boundary persisted: {}",
+                    boundary
+                );
+            }
+
+            Ok::<_, Error>((session_id, ctr))
         })?;
-
-        // Store the moved boundary BEFORE the reserved value can reach the
-        // wire: a restart then resumes past it, so receivers never see a
-        // counter value replayed. Writes happen once per
-        // `GROUP_DATA_CTR_EPOCH` messages, not per message.
-        if let Some(boundary) = boundary {
-            kv.access(|store, buf| {
-                store.store(
-                    crate::persist::GROUP_DATA_COUNTER_KEY,
-                    &boundary.to_le_bytes(),
-                    buf,
-                )
-            })?;
-
-            debug!(
-                "Group data message counter boundary persisted: {}",
-                boundary
-            );
-        }
 
         let exchange = Self::initiate_for_session(matter, crypto, session_id)?;
 
